@@ -1,4 +1,4 @@
-import TaskModel.Sched.FailLemmas
+import TaskModel.Sched.TraceLemmas
 import TaskModel.Gen.Codes
 import Props.C02
 /-!
@@ -189,6 +189,68 @@ theorem C03_propagates_deps (P : Program) (F : Flags) (n : Nat) (tr : List Label
     | false => rfl
     | true =>
       exact absurd (.inr (.inr (.inr ⟨hs, hlate, slotOfDep j, id, mem_of_lookup _ _ _ hl, hj⟩))) hnp
+
+/-! ### the same on traces: nothing starts after the failure, whatever happens later -/
+
+/-- **callers (trace form).** If the callee of a non-deferred `task:` entry of `a` returned a
+failure that the caller's `ignore_error` does not cover, then in *every* accepted
+continuation `tr2` after the caller has taken its slot back (`callReacq`): no event of `a`
+starts a non-deferred command, and `a` ends up with the callee's failure as its result
+(wrapped iff `a` was called directly) and with the list of started commands it had. -/
+theorem C03_no_later_cmd_caller (P : Program) (F : Flags) (n : Nat) (tr1 tr2 : List Label) (a i : Nat)
+    (c : Config) (h : replay P F (init n) (tr1 ++ ⟨a, .callReacq i⟩ :: tr2) = some c) :
+    ∃ c1 x, replay P F (init n) tr1 = some c1 ∧ c1.act? a = some x ∧
+      ∀ cmd tl, x.phase = .callReturned i false → x.rest = cmd :: tl →
+        x.callRes.isOk = false → ¬ Ignored x.def_ cmd x.callRes →
+        (∃ id k, x.kids.lookup (slotOfCall x i) = some id ∧ c1.act? id = some k ∧ k.phase = .done ∧
+          k.res = x.callRes) ∧
+        (∀ ev, ev ∈ evsOf a tr2 → isNDStart ev = false) ∧
+        ∃ y, c.act? a = some y ∧ lateP y.phase = true ∧ y.res = wrap x.indirect x.callRes ∧
+          y.started = x.started := by
+  obtain ⟨c1, c2, h1, hs, h2⟩ := replay_split P F (init n) c tr1 tr2 _ h
+  obtain ⟨x, y, eff, hx, hl, hy⟩ := step_local_of P F c1 c2 a _ (fun _ _ e => by cases e) hs
+  refine ⟨c1, x, h1, hx, ?_⟩
+  intro cmd tl hp hr hok hi
+  obtain ⟨g1, g2, g3⟩ := C03_propagates_call_step F _ x i i y eff cmd tl hp hr hl hok hi
+  obtain ⟨⟨y', k1, k2, k3, k4⟩, k5⟩ := lateP_forever P F a tr2 c2 c y h2 hy g1
+  exact ⟨C03_callRes_is_callee_result P F n tr1 c1 h1 a x hx i false hp, k5, y', k1, k2, k3.trans g2, k4.trans g3⟩
+
+/-- **dependents (trace form).** If the dependency group of `a` failed (`depsDone r`, `r ≠ ok`),
+then no event of `a` — before or after, in every accepted continuation — starts a command,
+and `a` ends up with a failure as its result. -/
+theorem C03_no_cmd_dependent (P : Program) (F : Flags) (n : Nat) (tr1 tr2 : List Label) (a : Nat) (r : Res)
+    (c : Config) (h : replay P F (init n) (tr1 ++ ⟨a, .depsDone r⟩ :: tr2) = some c) (hok : r.isOk = false) :
+    (∀ ev, ev ∈ evsOf a tr1 → isNDStart ev = false) ∧ (∀ ev, ev ∈ evsOf a tr2 → isNDStart ev = false) ∧
+    ∃ y, c.act? a = some y ∧ y.res.isOk = false ∧ y.started = [] := by
+  obtain ⟨c1, c2, h1, hs, h2⟩ := replay_split P F (init n) c tr1 tr2 _ h
+  obtain ⟨x, y, eff, hx, hl, hy⟩ := step_local_of P F c1 c2 a _ (fun _ _ e => by cases e) hs
+  obtain ⟨_, _, g3, g4, g5, _⟩ := C03_propagates_deps_step F _ x r y eff hl hok
+  have hpre : preBodyP x.phase = true := by
+    have hL := LStep_of_stepLocal F _ x _ y eff hl
+    cases hL with
+    | depsDoneOk _ rs hp _ _ _ => rw [hp]; rfl
+    | depsDoneFail _ rs hp _ _ _ => rw [hp]; rfl
+  have hst := preBody_started P F n tr1 c1 h1 a x hx hpre
+  obtain ⟨⟨y', k1, _, k3, k4⟩, k5⟩ := lateP_forever P F a tr2 c2 c y h2 hy g3
+  refine ⟨?_, k5, y', k1, by rw [k3]; exact g4, by rw [k4, g5]; exact hst⟩
+  apply ndStarts_nil
+  rw [← started_is_history P F n tr1 c1 h1 a x hx]; exact hst
+
+/-- **own command (trace form)**, the state-based companion of `C03_no_later_cmd`: after a
+non-ignored failure of its own command the activation keeps that failure as its result. -/
+theorem C03_result_after_cmd_failure (P : Program) (F : Flags) (n : Nat) (tr1 tr2 : List Label) (a i : Nat) (r : Res)
+    (c : Config) (h : replay P F (init n) (tr1 ++ ⟨a, .cmdEnd i r⟩ :: tr2) = some c) :
+    ∃ c1 x, replay P F (init n) tr1 = some c1 ∧ c1.act? a = some x ∧
+      ∀ cmd tl, x.phase = .inShell i false → x.rest = cmd :: tl → r.isOk = false → ¬ Ignored x.def_ cmd r →
+        (∀ ev, ev ∈ evsOf a tr2 → isNDStart ev = false) ∧
+        ∃ y, c.act? a = some y ∧ lateP y.phase = true ∧ y.res = wrap x.indirect r ∧ y.started = x.started := by
+  obtain ⟨c1, c2, h1, hs, h2⟩ := replay_split P F (init n) c tr1 tr2 _ h
+  obtain ⟨x, y, eff, hx, hl, hy⟩ := step_local_of P F c1 c2 a _ (fun _ _ e => by cases e) hs
+  refine ⟨c1, x, h1, hx, ?_⟩
+  intro cmd tl hp hr hok hi
+  obtain ⟨g1, g2, g3⟩ := C03_propagates_cmd F _ x i r y eff cmd tl hp hr hl hok hi
+  obtain ⟨⟨y', k1, k2, k3, k4⟩, k5⟩ := lateP_forever P F a tr2 c2 c y h2 hy g1
+  exact ⟨k5, y', k1, k2, k3.trans g2, k4.trans g3⟩
 
 /-! ## `ignore_error` suppresses exactly what it says -/
 
@@ -451,6 +513,10 @@ example : exitCode (.run (.exit 3)) false = 201 ∧ exitCode (.run (.exit 3)) tr
 example : (replay progF {} (init 1) (runF.take 15 ++ [⟨2, .cmdStart 1 none false⟩])).isNone = true := by decide
 -- … and so is the caller starting its next command after the callee failed
 example : (replay progF {} (init 1) (runF.take 19 ++ [⟨1, .cmdStart 1 none false⟩])).isNone = true := by decide
+-- the hypotheses of `C03_no_later_cmd_caller` are met at the caller's `callReacq` (event 18 of the run)
+example : ((replay progF {} (init 1) (runF.take 18)).bind (·.act? 1)).map
+    (fun x => (x.phase, x.callRes, x.rest.head?, x.def_.ignoreError)) =
+    some (.callReturned 0 false, .exit 3, some (.call 1 false), false) := by decide
 -- the monitor accepts the run and rejects the continuation on the raw events
 example : failStopMonAll progF runF = true := by decide
 example : failStopMonAll progF (runF.take 15 ++ [⟨2, .cmdStart 1 none false⟩]) = false := by decide
